@@ -29,6 +29,10 @@ theorem requestStatus_status (req) (hA : A req = true) : Rel (statusPre A) (requ
   unfold requestStatus
   status_walk [wfProcessWorkflowEvent_status _ hA]
 
+theorem failOnError_status (hF : A .failed = true) : Rel (statusPre A) failOnError := by
+  unfold failOnError
+  status_walk [requestStatus_status _ hF]
+
 theorem getTask_status (k) : Rel (statusPre A) (getTask E k) := by
   unfold getTask
   status_walk []
@@ -43,7 +47,7 @@ theorem nextTaskFor_status (sx) (hF : A .failed = true) : Rel (statusPre A) (nex
 
 theorem nextFrom_status (todo) (hF : A .failed = true) : Rel (statusPre A) (nextFrom E todo) := by
   unfold nextFrom
-  status_walk [nextTaskFor_status E _ hF, requestStatus_status _ hF]
+  status_walk [nextTaskFor_status E _ hF, requestStatus_status _ hF, failOnError_status hF]
 
 theorem getNextTasks_status (hF : A .failed = true) : Rel (statusPre A) (getNextTasks E) := by
   constructor
@@ -52,7 +56,7 @@ theorem getNextTasks_status (hF : A .failed = true) : Rel (statusPre A) (getNext
 
 theorem addTaskState_status (k a b) (hF : A .failed = true) : Rel (statusPre A) (addTaskState E k a b) := by
   unfold addTaskState
-  status_walk [requestStatus_status _ hF]
+  status_walk [requestStatus_status _ hF, failOnError_status hF]
 
 theorem evaluateRoute_status (e r) : Rel (statusPre A) (evaluateRoute e r) := by
   unfold evaluateRoute
@@ -64,11 +68,11 @@ theorem stageNext_status (k idx e o acc) : Rel (statusPre A) (stageNext k idx e 
 
 theorem fireTransition_status (k idx ec acc e) (hF : A .failed = true) : Rel (statusPre A) (fireTransition E k idx ec acc e) := by
   unfold fireTransition
-  status_walk [requestStatus_status _ hF, stageNext_status _ _ _ _ _ ]
+  status_walk [requestStatus_status _ hF, failOnError_status hF, stageNext_status _ _ _ _ _ ]
 
 theorem processTransition_status (k idx ec acc e) (hF : A .failed = true) : Rel (statusPre A) (processTransition E k idx ec acc e) := by
   unfold processTransition
-  status_walk [requestStatus_status _ hF, fireTransition_status E _ _ _ _ _ hF]
+  status_walk [requestStatus_status _ hF, failOnError_status hF, fireTransition_status E _ _ _ _ _ hF]
 
 theorem makeTaskContext_status (k idx r) : Rel (statusPre A) (makeTaskContext k idx r) := by
   unfold makeTaskContext
@@ -86,10 +90,10 @@ theorem restageRetry_status (k idx o) : Rel (statusPre A) (restageRetry k idx o)
   unfold restageRetry
   status_walk []
 
-theorem completedRetryDecision_status (k idx ts ns ev) (hF : A .failed = true) :
-    Rel (statusPre A) (completedRetryDecision E k idx ts ns ev) := by
+theorem completedRetryDecision_status (k idx ts os ns ev) (hF : A .failed = true) :
+    Rel (statusPre A) (completedRetryDecision E k idx ts os ns ev) := by
   unfold completedRetryDecision
-  status_walk [makeTaskContext_status _ _ _ , requestStatus_status _ hF]
+  status_walk [makeTaskContext_status _ _ _ , requestStatus_status _ hF, failOnError_status hF]
 
 theorem evalTransitions_status (k idx ts ev) (hF : A .failed = true) : Rel (statusPre A) (evalTransitions E k idx ts ev) := by
   unfold evalTransitions
@@ -110,7 +114,7 @@ theorem updateHead_status (k ev) (hF : A .failed = true) : Rel (statusPre A) (up
 theorem updateTail_status (recur : TaskKey → Event → M Unit) (hrec : ∀ k ev, Rel (statusPre A) (recur k ev))
     (k ev h) (hF : A .failed = true) : Rel (statusPre A) (updateTail E recur k ev h) := by
   unfold updateTail updateRest
-  status_walk [hrec _ _, completedRetryDecision_status E _ _ _ _ _ hF, evalTransitions_status E _ _ _ _ hF, markTermIfCompleted_status _ ]
+  status_walk [hrec _ _, completedRetryDecision_status E _ _ _ _ _ _ hF, evalTransitions_status E _ _ _ _ hF, markTermIfCompleted_status _ ]
 
 theorem updateTaskStateAux_status (fuel k ev) (hF : A .failed = true) : Rel (statusPre A) (updateTaskStateAux E fuel k ev) := by
   induction fuel generalizing k ev with
@@ -128,6 +132,6 @@ theorem terminalContext_status : Rel (statusPre A) terminalContext := by
 
 theorem renderOutput_status (hF : A .failed = true) : Rel (statusPre A) (renderOutput E) := by
   unfold renderOutput
-  status_walk [terminalContext_status, requestStatus_status _ hF]
+  status_walk [terminalContext_status, requestStatus_status _ hF, failOnError_status hF]
 
 end Orq
